@@ -577,4 +577,220 @@ def run (W : Nat) (fx : Fixes) (n : Node) : List (Op × Fault) → Node
   | [] => n
   | (op, ft) :: rest => run W fx (exec W fx n op ft).1 rest
 
+/-! ### The calls with the filter initialiser as a parameter (round 5)
+
+`blockchain.New` takes the initialiser of the lazily initialised running filter as an option
+(`WithRunningEventFilterInitializer`) and installs `pruner.InitializeRunningEventFilter` — the
+floor-aware one, `initFilterP` — BY DEFAULT, for every node, pruning or not. The definitions above
+use `core.InitializeRunningEventFilter` (`initFilter`); the ones below are the same calls with the
+initialiser `ini` (and `nw`: does the initialisation on this disk have to write a window?) as a
+parameter. `execP` is the call as `blockchain.New` wires it. `ProofsInit` proves
+`execG (initFilter W) (initNeedsWrite W) = exec` and `execP = exec` on every never-pruned image. -/
+
+/-- `ensureInit` with the initialiser the `Blockchain` was constructed with. -/
+def ensureInitG (ini : Disk → Option (Filt × Disk)) (n : Node) : Node :=
+  match n.mem with
+  | .lazy =>
+    match ini n.disk with
+    | some (f, d') => ⟨d', .ready f⟩
+    | none => ⟨n.disk, .broken⟩
+  | _ => n
+
+def storePlanG (ini : Disk → Option (Filt × Disk)) (W : Nat) (n : Node) (b : Block) : Plan :=
+  let (en, ep) := expectedNext n.disk
+  if en ≠ b.num then ⟨n.disk, [], n.mem, .err .succession⟩
+  else if ep ≠ b.parent then ⟨n.disk, [], n.mem, .err .parent⟩
+  else if stateRoot n.disk ≠ b.oldRoot then ⟨n.disk, [], n.mem, .err .state⟩
+  else if b.applied ≠ b.root then ⟨n.disk, [], n.mem, .err .state⟩
+  else
+    let n1 := ensureInitG ini n
+    match n1.mem with
+    | .ready f =>
+      match f.insert W b.bits b.num with
+      | none => ⟨n1.disk, [], n1.mem, .err .range⟩
+      | some (f', ws) => ⟨n1.disk, [blockWrites b ++ ws], .ready f', .ok⟩
+    | m => ⟨n1.disk, [], m, .err .init⟩
+
+def revertPlanG (ini : Disk → Option (Filt × Disk)) (W : Nat) (fx : Fixes) (n : Node) : Plan :=
+  match getHeight n.disk with
+  | none => ⟨n.disk, [], n.mem, .err .notfound⟩
+  | some h =>
+    match getBlk n.disk (.su h), getBlk n.disk (.header h), getBlk n.disk (.txs h) with
+    | some su, some hb, some tb =>
+      if stateRoot n.disk ≠ su.root then ⟨n.disk, [], n.mem, .err .state⟩
+      else
+        let n1 := ensureInitG ini n
+        match n1.mem with
+        | .ready f =>
+          let (f', ws, o) := f.onReorg W fx n1.disk
+          match o with
+          | .ok => ⟨n1.disk, [revertWrites h hb tb su ++ ws], .ready f', .ok⟩
+          | e => ⟨n1.disk, [], .ready f', e⟩
+        | m => ⟨n1.disk, [], m, .err .init⟩
+    | _, _, _ => ⟨n.disk, [], n.mem, .err .notfound⟩
+
+def snapPlanG (ini : Disk → Option (Filt × Disk)) (n : Node) : Plan :=
+  let n1 := ensureInitG ini n
+  match n1.mem with
+  | .ready f => ⟨n1.disk, [[.put .snap (.snap f.win f.next)]], n1.mem, .ok⟩
+  | m => ⟨n1.disk, [], m, .err .init⟩
+
+def planG (ini : Disk → Option (Filt × Disk)) (W : Nat) (fx : Fixes) (n : Node) : Op → Plan
+  | .store b => storePlanG ini W n b
+  | .revert => revertPlanG ini W fx n
+  | .l1head v => ⟨n.disk, [[.put .l1head (.num v)]], n.mem, .ok⟩
+  | .snap => snapPlanG ini n
+  | .restart =>
+    let p := snapPlanG ini n
+    { p with mem := match p.out with | .ok => .lazy | _ => p.mem }
+  | .kill => ⟨n.disk, [], .lazy, .ok⟩
+  | .prune e => prunePlan W n e
+
+/-- `exec` with the initialiser as a parameter. -/
+def execG (ini : Disk → Option (Filt × Disk)) (nw : Disk → Bool) (W : Nat) (fx : Fixes) (n : Node)
+    (op : Op) (ft : Fault) : Node × Out :=
+  let p := planG ini W fx n op
+  match ft with
+  | .none => (⟨applyCommits p.disk0 p.commits, memAfter fx op p.out p.mem⟩, p.out)
+  | .failAt k =>
+    if k < p.commits.length then
+      (⟨applyCommits p.disk0 (p.commits.take k),
+        memAfter fx op (.err .io) (match op with | .restart => (snapPlanG ini n).mem | _ => p.mem)⟩, .err .io)
+    else (⟨applyCommits p.disk0 p.commits, memAfter fx op p.out p.mem⟩, p.out)
+  | .crashAfter k => (⟨applyCommits p.disk0 (p.commits.take (k + 1)), .lazy⟩, .ok)
+  | .failInit =>
+    if n.mem = .lazy ∧ nw n.disk = true ∧ (planG ini W fx ⟨n.disk, .broken⟩ op).out = .err .init then
+      (⟨n.disk, memAfter fx op (.err .init) (if fx.retryInit then .lazy else .broken)⟩, .err .init)
+    else (⟨applyCommits p.disk0 p.commits, memAfter fx op p.out p.mem⟩, p.out)
+  | .crashInit => (⟨p.disk0, .lazy⟩, .ok)
+
+/-- `pruner.InitializeRunningEventFilter` on a database that refuses the initialisation's direct
+writes (`initFilterNW` for the floor-aware initialiser). -/
+def initFilterPNW (W : Nat) (d : Disk) : Option Filt :=
+  match getHeight d with
+  | none => some ⟨Win.empty 0, 0⟩
+  | some latest =>
+    let floor := (oldestRetained d (latest + 1) 0).getD 0
+    let rb : Option Filt :=
+      let (cont, ws) := scanBackP W d floor (wstart W floor) (latest / W + 1) (wstart W latest)
+      fillNW W (latest + 1 - cont) cont ⟨Win.empty ws, cont⟩ d
+    match d .snap with
+    | some (.snap w nx) =>
+      if nx = latest + 1 then some ⟨w, nx⟩
+      else if nx ≤ latest ∧ latest ≤ w.lo + (W - 1) then
+        let nx' := max nx floor
+        fillNW W (latest + 1 - nx') nx' ⟨w, nx'⟩ d
+      else rb
+    | _ => rb
+
+def initNeedsWriteP (W : Nat) (d : Disk) : Bool :=
+  (initFilterP W d).isSome && (initFilterPNW W d).isNone
+
+/-- One call of a `Blockchain` as `blockchain.New` builds it: the floor-aware initialiser. -/
+def execP (W : Nat) (fx : Fixes) (n : Node) (op : Op) (ft : Fault) : Node × Out :=
+  execG (initFilterP W) (initNeedsWriteP W) W fx n op ft
+
+def runP (W : Nat) (fx : Fixes) (n : Node) : List (Op × Fault) → Node
+  | [] => n
+  | (op, ft) :: rest => runP W fx (execP W fx n op ft).1 rest
+
+/-! ### The shared in-memory retention floor (`pruner.RetentionFloor`, round 5)
+
+`node.New` builds ONE `RetentionFloor`, hands it to the `Blockchain` (`WithRetentionFloor`; the
+state backends consult it in `StateAtBlockNumber` instead of probing the database) and to the
+`pruner.Pruner` service; `node.Run` seeds it from the database when the process starts; the
+pruner RAISES it in `pruneUpto` BEFORE the multi-batch sweep. It is a cache of the disk's oldest
+retained block: memory next to the running filter. -/
+
+/-- `OldestRetainedBlock` of the image (0 on an empty database). -/
+def floorOf (d : Disk) : Nat :=
+  match getHeight d with
+  | none => 0
+  | some h => (oldestRetained d (h + 1) 0).getD 0
+
+/-- `RetentionFloor.raiseTo`: never lowers; the zero value (unseeded, `none`) takes any value. -/
+def raiseFloor (cur : Option Nat) (f : Nat) : Option Nat :=
+  match cur with
+  | none => some f
+  | some c => if f + 1 ≤ c + 1 then some c else some f
+
+/-- `RetentionFloor.Seed`: oldest retained block − 1 (history entries hold pre-block values, so the
+state one block below the oldest retained block is reconstructible); an empty database seeds 0. -/
+def seedFloor (cur : Option Nat) (d : Disk) : Option Nat := raiseFloor cur (max (floorOf d) 1 - 1)
+
+/-- `RequireStateRetainedByBlockNumber` (what `StateAtBlockNumber(k)` decides before it hands out a
+reader): seeded floor — `k` at or above the floor and at most the chain height; unseeded — the
+database probe: header `k` readable and its hash→number mapping still present. -/
+def stateServed (fl : Option Nat) (d : Disk) (k : Nat) : Bool :=
+  match fl with
+  | some f =>
+    if k < f then false
+    else
+      match getHeight d with
+      | some h => decide (k ≤ h)
+      | none => false
+  | none =>
+    match getBlk d (.header k) with
+    | some hb => (d (.numByHash hb.hash)).isSome
+    | none => false
+
+/-- A node together with the retention floor its process shares between `Blockchain` and pruner.
+`wired = false`: a `Blockchain` built without `WithRetentionFloor` (floor never seeded: database
+probe). -/
+structure PNode where
+  node : Node
+  floor : Option Nat
+  wired : Bool
+
+inductive POp where
+  /-- a call of the `Blockchain`, or the package-level `PruneUpto`: the floor is not touched -/
+  | call (op : Op)
+  /-- `Pruner.onNewL1Head(l1)` of a pruner with `numRetainedBlocks = R` (no min-age floor) -/
+  | l1event (l1 R : Nat)
+
+/-- The floor a freshly started process holds. -/
+def freshFloor (wired : Bool) (d : Disk) : Option Nat := if wired then seedFloor none d else none
+
+def Fault.isCrash : Fault → Bool
+  | .crashAfter _ => true
+  | .crashInit => true
+  | _ => false
+
+/-- One call / pruner event under a fault. `early = true` is the code: `pruneUpto` raises the
+shared floor to `oldestBlockToKeep − 1` BEFORE `PruneUpto` runs its batches (`early = false`, raising
+only after a successful sweep, exists for the negative witness in `Props`). A process that
+(re)starts — `kill`, a successful graceful `restart`, any crash — holds a freshly seeded floor. -/
+def pexec (early : Bool) (W : Nat) (fx : Fixes) (pn : PNode) (pop : POp) (ft : Fault) : PNode × Out :=
+  match pop with
+  | .call op =>
+    let r := execP W fx pn.node op ft
+    let restarted : Bool :=
+      ft.isCrash ||
+        (match op with
+          | .kill => true
+          | .restart => decide (r.2 = .ok)
+          | _ => false)
+    (⟨r.1, if restarted then freshFloor pn.wired r.1.disk else pn.floor, pn.wired⟩, r.2)
+  | .l1event l1 R =>
+    match getHeight pn.node.disk with
+    | none => (pn, .ok)
+    | some h =>
+      if l1 ≥ h ∨ l1 < R then (pn, .ok)
+      else
+        let e := l1 - R
+        let raised := if e > 0 then raiseFloor pn.floor (e - 1) else pn.floor
+        let r := execP W fx pn.node (.prune e) ft
+        let fl : Option Nat :=
+          if ft.isCrash then freshFloor pn.wired r.1.disk
+          else if early then raised
+          else (match r.2 with | .ok => raised | _ => pn.floor)
+        (⟨r.1, fl, pn.wired⟩, r.2)
+
+def prun (early : Bool) (W : Nat) (fx : Fixes) (pn : PNode) : List (POp × Fault) → PNode
+  | [] => pn
+  | (pop, ft) :: rest => prun early W fx (pexec early W fx pn pop ft).1 rest
+
+/-- A freshly started process on an empty database, wired as `node.New` / `node.Run` do. -/
+def PNode.init : PNode := ⟨Node.init, some 0, true⟩
+
 end Juno.C05
